@@ -80,7 +80,7 @@ def main():
             sh(["git", "-C", "/repo", "worktree", "remove", "--force", wt])
             shutil.rmtree(wt, ignore_errors=True)
         # regenerated Lean tables were produced from the mutated tree: restore the committed ones
-        sh(["git", "-C", VERIF, "checkout", "--", "lean/Emboss/Generated"])
+        sh(["git", "-C", VERIF, "checkout", "--", "lean/Emboss/Generated", "evidence"])
 
 
 if __name__ == "__main__":
